@@ -263,6 +263,16 @@ class _NotConcrete(Exception):
     pass
 
 
+class LocalFuncV:
+    """A function defined inside the interpreted function: a closure over the defining environment (read at call time)."""
+
+    def __init__(self, fn, env):
+        self.fn, self.env = fn, env
+
+    def __repr__(self):
+        return "<local function %s>" % self.fn.name
+
+
 class LambdaV:
     def __init__(self, node, env):
         self.node, self.env = node, env
@@ -368,7 +378,7 @@ class Builtin:
         self.name = name
 
 
-BUILTINS = ("isinstance", "type", "range", "max", "min", "len", "sorted", "iter", "next", "zip", "enumerate", "reversed", "sum", "any", "all", "abs",
+BUILTINS = ("isinstance", "type", "range", "max", "min", "len", "sorted", "iter", "next", "zip", "enumerate", "reversed", "sum", "any", "all", "abs", "map", "filter",
             "getattr", "hasattr")
 
 
@@ -523,6 +533,33 @@ class Interp:
                 raise Unsupported(st, "while loop not finished after 64 iterations")
         elif isinstance(st, ast.Try):
             self.exec_try(st, env)
+        elif isinstance(st, ast.With):
+            opened = []
+            for item in st.items:
+                v = self.eval(item.context_expr, env)
+                opened.append(v)
+                if item.optional_vars is not None:
+                    self.assign(item.optional_vars, v, env)
+            try:
+                self.exec_block(st.body, env)
+            finally:
+                for v in reversed(opened):
+                    if hasattr(self.w, "exit_context"):
+                        self.w.exit_context(self, v, st)
+                    elif hasattr(v, "closed"):
+                        v.closed = True
+        elif isinstance(st, ast.FunctionDef):
+            if st.decorator_list:
+                raise Unsupported(st, "decorated local function")
+            env[st.name] = LocalFuncV(st, env)
+        elif isinstance(st, ast.Assert):
+            if not self.truth(self.eval(st.test, env), st.test):
+                raise AbstractRaise("AssertionError", st, explicit=True)
+        elif isinstance(st, ast.AnnAssign):
+            if st.value is not None:
+                self.assign(st.target, self.eval(st.value, env), env)
+        elif isinstance(st, (ast.Global, ast.Nonlocal)):
+            raise Unsupported(st, "global / nonlocal")
         elif isinstance(st, (ast.Import, ast.ImportFrom)):
             for a in st.names:
                 nm = (a.asname or a.name).split(".")[0]
@@ -686,7 +723,7 @@ class Interp:
         if isinstance(e, ast.Name):
             if e.id in env:
                 return env[e.id]
-            if e.id in ("list", "dict", "tuple", "set", "int", "str", "frozenset", "float", "bool", "bytes"):
+            if e.id in ("list", "dict", "tuple", "set", "int", "str", "frozenset", "float", "bool", "bytes", "object"):
                 return TypeV(e.id)
             if e.id in BUILTINS:
                 return Builtin(e.id)
@@ -829,12 +866,18 @@ class Interp:
             else:
                 try:
                     lit = ast.literal_eval(ve)
+                    val = _from_py(lit)
                 except Exception:
-                    return None
-                _CONST_VALUES[key] = _from_py(lit)
-                if _CONST_VALUES[key] is None:
-                    del _CONST_VALUES[key]
-                    return None
+                    val = None
+                if val is None:
+                    # a computed constant (itemgetter(0, 1), frozenset((..)), a tuple of names ...): evaluated in an empty frame
+                    try:
+                        val = self.eval(ve, {})
+                    except (Unsupported, AbstractRaise, Fork):
+                        return None
+                    if isinstance(val, (ListObj, DictObj, SetObj)) and getattr(val, "persistent", False):
+                        return None
+                _CONST_VALUES[key] = val
         v = _CONST_VALUES[key]
         return _fresh_copy(v)
 
@@ -1066,6 +1109,8 @@ class Interp:
     def load_attr(self, obj, attr, node):
         if isinstance(obj, TypeV) and obj.name == "dict" and attr == "fromkeys":
             return Builtin("dict.fromkeys")
+        if isinstance(obj, Builtin) and obj.name == "chain" and attr == "from_iterable":
+            return Opaque("module:itertools.chain.from_iterable")
         if isinstance(obj, SetObj) and attr in ("add", "pop", "discard", "remove", "update", "union", "intersection", "difference"):
             return BoundMethod(obj, attr)
         if isinstance(obj, ListObj) and attr in ("append", "pop", "extend", "insert", "sort", "reverse", "clear", "remove"):
@@ -1104,6 +1149,8 @@ class Interp:
         if isinstance(f, Builtin):
             return self.call_builtin(f.name, args, kwargs, e)
         if isinstance(f, TypeV):
+            if f.name == "object" and not args and not kwargs:
+                return SentinelV("object() at line %d" % getattr(e, "lineno", 0))
             if f.name in ("list", "tuple", "set") and len(args) == 1:
                 c = self.w.concretise_iter(self, args[0], e)
                 seq = _concrete_seq(c if c is not None else args[0])
@@ -1176,6 +1223,8 @@ class Interp:
             env2 = dict(f.env)
             env2.update(zip(names, args))
             return self.eval(f.node.body, env2)
+        if isinstance(f, LocalFuncV):
+            return self.call_local(f, args, kwargs, e)
         if isinstance(f, PyFunc):
             if self.depth >= self.max_depth + 3:
                 raise Unsupported(e, "call depth")
@@ -1348,12 +1397,22 @@ class Interp:
             return IterV(_concrete_seq(args[0]))
         if name == "reversed" and len(args) == 1 and isinstance(args[0], (ListObj, TupleV)) and not getattr(args[0], "has_prefix", False):
             return IterV(list(reversed(args[0].items)))
-        if name == "next" and len(args) == 1 and isinstance(args[0], IterV):
+        if name == "next" and 1 <= len(args) <= 2 and isinstance(args[0], IterV):
             it = args[0]
             if it.pos >= len(it.items):
+                if len(args) == 2:
+                    return args[1]
                 raise AbstractRaise("StopIteration", node, detail="next() on an exhausted iterator")
             it.pos += 1
             return it.items[it.pos - 1]
+        if name in ("map", "filter") and len(args) == 2 and not kwargs:
+            seq = self._seq(args[1], node)
+            if seq is not None:
+                if name == "map":
+                    return IterV([self.apply_value(args[0], [x], node) for x in seq])
+                if isinstance(args[0], Const) and args[0].v is None:
+                    return IterV([x for x in seq if self.truth(x, node)])
+                return IterV([x for x in seq if self.truth(self.apply_value(args[0], [x], node), node)])
         if name == "dict.fromkeys" and 1 <= len(args) <= 2:
             seq = _concrete_seq(args[0])
             if seq is not None:
@@ -1435,8 +1494,22 @@ class Interp:
             return None
         return [seq[i] for i in idx]
 
+    def call_local(self, f, args, kwargs, node):
+        if self.depth >= self.max_depth + 3:
+            raise Unsupported(node, "call depth")
+        bound = _bind(f.fn, list(args), kwargs, self, node)
+        env2 = dict(f.env)
+        env2.update(bound)
+        self.depth += 1
+        try:
+            return self.call_function(f.fn, env2)
+        finally:
+            self.depth -= 1
+
     def apply_value(self, f, args, node):
         """Call an abstract callable on already evaluated arguments."""
+        if isinstance(f, LocalFuncV):
+            return self.call_local(f, list(args), {}, node)
         if isinstance(f, LambdaV):
             a = f.node.args
             names = [x.arg for x in a.args]
@@ -1582,6 +1655,16 @@ class Interp:
                     self.w.effect(("heap_write", obj.tag, "update"), node)
                 obj.entries.update(args[0].entries)
                 return NONE
+            if name == "update" and len(args) <= 1:
+                pairs = self._seq(args[0], node) if args else []
+                if pairs is not None and all(isinstance(x, (TupleV, ListObj)) and len(x.items) == 2 for x in pairs):
+                    if obj.persistent:
+                        self.w.effect(("heap_write", obj.tag, "update"), node)
+                    for x in pairs:
+                        obj.entries[self.dict_key(x.items[0], node)] = x.items[1]
+                    for k, v in kwargs.items():
+                        obj.entries[Const(k)] = v
+                    return NONE
             if name == "get" and 1 <= len(args) <= 2:
                 k = self.dict_key(args[0], node)
                 if k in obj.entries:
